@@ -28,6 +28,25 @@ func maskTrace(tr []string) []string {
 }
 
 func resultsDigest(r *Result) string {
+	// stack traces and error texts carry addresses and goroutine numbers: not part of the comparison
+	strip := func(prog []CallResult) []CallResult {
+		out := make([]CallResult, len(prog))
+		for i, c := range prog {
+			out[i] = CallResult{Class: c.Class, Digest: c.Digest, ArgMod: c.ArgMod, MutDig: c.MutDig, EndDig: c.EndDig, MutWhat: c.MutWhat, LaterWhat: c.LaterWhat, W: c.W, H: c.H}
+		}
+		return out
+	}
+	rr := *r
+	rr.Results = nil
+	for _, ph := range r.Results {
+		var p2 [][]CallResult
+		for _, prog := range ph {
+			p2 = append(p2, strip(prog))
+		}
+		rr.Results = append(rr.Results, p2)
+	}
+	rr.SharedRes = strip(r.SharedRes)
+	r = &rr
 	b, _ := json.Marshal(struct {
 		V string
 		R [][][]CallResult
